@@ -164,7 +164,8 @@ def plan_c10(ctx):
 
 
 def plan_c17(ctx):
-    r = standard(ctx, [dict(module='MC_Hilbert', cfg='MC_Hilbert_c17', workers=12, coverage=False)],
+    r = standard(ctx, [dict(module='MC_Hilbert', cfg='MC_Hilbert_c17', workers=12, coverage=False),
+                       dict(module='MC_Hilbert', cfg='MC_Hilbert_c17_n10', workers=14, coverage=False, tier='thorough', timeout=3300)],
                  rule='all 4^n positions x 6 orientations for n<=6 (quick) / n<=8 (thorough): the harness measures the lattice triangle of '
                       'each pentagon centre from the real vertices, sorts by triangle, and TLC checks strictly increasing triangles inside '
                       'TriSet(n), count 4^n and ij_to_s(centre)=s; for n up to 29 boundary / digit-pattern / random positions. '
